@@ -109,6 +109,10 @@ def nontrivial(state):
 
 def step_experiments(ctx, env, state, action, label, payload, deterministic, rng):
     pre = enc.es(state)
+    try:
+        hash(state)
+    except TypeError:
+        pass
     env.set_seed(7)
     ok, res = call_real(env.functional_step, state, action)
     ctx.ev()
@@ -116,6 +120,15 @@ def step_experiments(ctx, env, state, action, label, payload, deterministic, rng
     if not ok:
         return
     ns, r, d = res
+    # a returned state equals and hashes like a freshly built copy of itself
+    fresh = enc.state_from_json(enc.state_to_json(ns))
+    try:
+        if not (ns == fresh) or hash(ns) != hash(fresh):
+            ctx.violation('copy', 'next_state.hash_or_eq_stale',
+                          f'{label}: the state returned by functional_step({action.name}) is not ==/hash-equal to a freshly built '
+                          f'equal state (== {ns == fresh})', 'step_case', payload)
+    except TypeError:
+        pass
     if enc.es(state) != pre:
         ctx.violation('purity', 'functional_step.mutates_input', f'{label}: functional_step({action.name}) modified its input state',
                       'step_case', payload)
